@@ -8,6 +8,7 @@
 //! path of Mutex::lock), actor 1 is the notifier that keeps the mutex for a while after notify_one, the
 //! others queue up behind; main cancels actor 0 while it re-locks (the F1 schedule, notes/repro/mx.rs): with
 //! MAYV_AIM=1 (default) main waits for the notify before it counts down to the cancel.
+//! MAYV_AIMU=1 (plain variant): main cancels right when some holder starts its unlock (cancel races with the hand-off).
 //!
 //! Oracles on the implementation (independent of the model):
 //!   * occupancy never 2 (checked on entry and on exit of every critical section)
@@ -33,6 +34,7 @@ static DONE: AtomicUsize = AtomicUsize::new(0);
 static GO: AtomicUsize = AtomicUsize::new(0);
 static NOTIFIED: AtomicUsize = AtomicUsize::new(0);
 static WAITING: AtomicUsize = AtomicUsize::new(0);
+static UNLOCKS: AtomicUsize = AtomicUsize::new(0);
 const HOLD_KEY: usize = 0x7777_0001;
 
 /// first thing every actor does: wait until all actors exist (coroutine objects are pooled: an actor that
@@ -87,6 +89,7 @@ fn plain_actor(sh: Arc<Shared>, who: usize, iters: usize, try_pct: u64) {
                 Ok(g) => {
                     c.log("try.ret", 0, 1, None);
                     critical(&sh, who, pts);
+                    UNLOCKS.fetch_add(1, Ordering::SeqCst);
                     c.log("unlock.call", 0, 0, None);
                     drop(g);
                     c.log("unlock.ret", 0, 0, None);
@@ -111,6 +114,7 @@ fn plain_actor(sh: Arc<Shared>, who: usize, iters: usize, try_pct: u64) {
             };
             c.log("lock.ret", 0, 0, None);
             critical(&sh, who, pts);
+            UNLOCKS.fetch_add(1, Ordering::SeqCst);
             c.log("unlock.call", 0, 0, None);
             drop(g);
             c.log("unlock.ret", 0, 0, None);
@@ -192,6 +196,7 @@ fn main() {
     let cvmode = envn("MAYV_CV", 0) == 1;
     let spread = envn("MAYV_SPREAD", 40) as u64;
     let aim = envn("MAYV_AIM", 1) == 1;
+    let aimu = envn("MAYV_AIMU", 0) == 1;
     run(cfg, move |ctx| {
         ctx.log("mx.actor", 99, 0, None);
         let sh = Arc::new(Shared { m: may::sync::Mutex::new(false), cv: may::sync::Condvar::new(), plain: UnsafeCell::new(0) });
@@ -236,7 +241,16 @@ fn main() {
                     guard += 1;
                 }
             }
-            let wait = ctx.rand() % (if cvmode && aim && vi == 0 { 120 } else { spread.max(1) });
+            // plain variant with MAYV_AIMU=1: aim at an unlock in progress (cancel races with the hand-off)
+            if !cvmode && aimu {
+                let want = 1 + (ctx.rand() % 3) as usize;
+                let mut guard = 0;
+                while UNLOCKS.load(Ordering::SeqCst) < want && guard < 2000 {
+                    ctx.yield_now();
+                    guard += 1;
+                }
+            }
+            let wait = ctx.rand() % (if cvmode && aim && vi == 0 { 120 } else if !cvmode && aimu { 10 } else { spread.max(1) });
             for _ in 0..wait {
                 ctx.yield_now();
             }
